@@ -3,6 +3,7 @@ package props
 import (
 	"fmt"
 	"math"
+	"reflect"
 	"testing"
 	"time"
 
@@ -568,4 +569,175 @@ func TestC20_ExhaustiveShortHistories(t *testing.T) {
 			rec.Fail(f, c)
 		}
 	})
+}
+
+// ---------------------------------------------------------------------------------------
+// Object variants: "equality is symmetric and never fails", "a clone equals its original" for host values of Go types
+// the library has no variant type for. The payloads cover every way a Go value can be (un)comparable: comparable
+// structs and pointers, slices / maps / functions / channels, structs and arrays that contain those directly (static
+// type not comparable) and behind an interface field (static type comparable, comparison fails at run time).
+
+type c20ObjKind struct {
+	name      string
+	mk        func() interface{} // a fresh, equal value per call
+	reflexive bool               // DeepEqual(p, p): false for payloads containing functions or NaN
+}
+
+type c20Wrap struct{ I interface{} }
+
+var c20SharedPtr = &objPayload{"shared"}
+var c20SharedChan = make(chan int)
+
+func c20ObjKinds() []c20ObjKind {
+	return []c20ObjKind{
+		{"struct", func() interface{} { return objPayload{"a"} }, true},
+		{"struct2", func() interface{} { return objPayload{"b"} }, true},
+		{"pointer", func() interface{} { return c20SharedPtr }, true},
+		{"freshpointer", func() interface{} { return &objPayload{"a"} }, true},
+		{"slice", func() interface{} { return []int{1, 2} }, true},
+		{"emptyslice", func() interface{} { return []int{} }, true},
+		{"map", func() interface{} { return map[string]int{"a": 1} }, true},
+		{"func", func() interface{} { return func() int { return 1 } }, false},
+		{"chan", func() interface{} { return c20SharedChan }, true},
+		{"struct-with-slice", func() interface{} { return struct{ A []int }{[]int{1}} }, true},
+		{"struct-with-map", func() interface{} { return struct{ M map[string]int }{map[string]int{"k": 2}} }, true},
+		{"array-of-slices", func() interface{} { return [2][]int{{1}, {2}} }, true},
+		{"nested-struct-with-slice", func() interface{} { return struct{ S struct{ A []string } }{struct{ A []string }{[]string{"x"}}} }, true},
+		{"iface-field-int", func() interface{} { return c20Wrap{1} }, true},
+		{"iface-field-slice", func() interface{} { return c20Wrap{[]int{1}} }, true},
+		{"iface-field-map", func() interface{} { return c20Wrap{map[int]int{1: 1}} }, true},
+		{"array-of-iface-slice", func() interface{} { return [1]interface{}{[]int{1}} }, true},
+		{"slice-of-iface", func() interface{} { return []interface{}{[]int{1}, "s", nil} }, true},
+		{"struct-with-func", func() interface{} { return struct{ F func() }{func() {}} }, false},
+		{"struct-with-nan", func() interface{} { return struct{ X float64 }{math.NaN()} }, false},
+		{"iface-field-nan", func() interface{} { return c20Wrap{math.NaN()} }, false},
+		{"error", func() interface{} { return fmt.Errorf("boom") }, true},
+		{"byte-slice", func() interface{} { return []byte("ab") }, true},
+		{"complex", func() interface{} { return complex(1, 2) }, true},
+		{"uint8", func() interface{} { return uint8(7) }, true},
+	}
+}
+
+type c20ObjCase struct {
+	A    int    `json:"a"` // payload kinds (indexes into c20ObjKinds)
+	B    int    `json:"b"`
+	ViaA string `json:"viaA"` // VariantFromObject | NewVariant | SetAsObject | setOverArray
+	ViaB string `json:"viaB"` // the same, or clone | assign (of the first variant; B is ignored)
+	Wrap int    `json:"wrap"` // 0: compared as they are; 1: each as the only element of an array variant; 2: nested two deep
+}
+
+func c20ObjBuild(via string, host interface{}) *variants.Variant {
+	switch via {
+	case "NewVariant":
+		return variants.NewVariant(host)
+	case "SetAsObject":
+		v := variants.EmptyVariant()
+		v.SetAsObject(host)
+		return v
+	case "setOverArray":
+		v := variants.VariantFromArray([]*variants.Variant{variants.VariantFromInteger(1)})
+		v.SetAsObject(host)
+		return v
+	}
+	return variants.VariantFromObject(host)
+}
+
+func checkC20Obj(c c20ObjCase) (res *evid.Fail) {
+	kinds := c20ObjKinds()
+	if c.A < 0 || c.A >= len(kinds) || c.B < 0 || c.B >= len(kinds) {
+		return nil
+	}
+	ka, kb := kinds[c.A], kinds[c.B]
+	if g := guard(func() {
+		pa := ka.mk()
+		a := c20ObjBuild(c.ViaA, pa)
+		if a.Type() != variants.Object {
+			res = evid.F("object-wrong-type:"+ka.name, "%s(%s payload) reports type %s", c.ViaA, ka.name, vtName(a.Type()))
+			return
+		}
+		if ka.reflexive && !reflect.DeepEqual(a.AsObject(), pa) {
+			res = evid.F("object-payload-changed:"+ka.name, "%s(%s payload): AsObject returns %#v", c.ViaA, ka.name, a.AsObject())
+			return
+		}
+		var b *variants.Variant
+		copyOfA := false
+		switch c.ViaB {
+		case "clone":
+			b, copyOfA, kb = a.Clone(), true, ka
+		case "assign":
+			b = variants.VariantFromInteger(3)
+			b.Assign(a)
+			copyOfA, kb = true, ka
+		default:
+			b = c20ObjBuild(c.ViaB, kb.mk())
+		}
+		for i := 0; i < c.Wrap; i++ {
+			a = variants.VariantFromArray([]*variants.Variant{a})
+			b = variants.VariantFromArray([]*variants.Variant{b})
+		}
+		desc := fmt.Sprintf("%s[%s] vs %s[%s], wrap %d", ka.name, c.ViaA, kb.name, c.ViaB, c.Wrap)
+		var ab, ba, aa bool
+		if g := guard(func() { ab = a.Equals(b) }); g != nil {
+			res = evid.F("equals-fails:object:"+ka.name, "%s: a.Equals(b): %s", desc, g.Msg)
+			return
+		}
+		if g := guard(func() { ba = b.Equals(a) }); g != nil {
+			res = evid.F("equals-fails:object:"+kb.name, "%s: b.Equals(a): %s", desc, g.Msg)
+			return
+		}
+		if g := guard(func() { aa = a.Equals(a) }); g != nil {
+			res = evid.F("equals-fails:object:"+ka.name, "%s: a.Equals(a): %s", desc, g.Msg)
+			return
+		}
+		if ab != ba {
+			res = evid.F("equals-asymmetric:object", "%s: a.Equals(b)=%v, b.Equals(a)=%v", desc, ab, ba)
+			return
+		}
+		if ka.reflexive && !aa {
+			res = evid.F("equals-not-reflexive:object:"+ka.name, "%s: a.Equals(a) is false", desc)
+			return
+		}
+		if copyOfA && ka.reflexive && !ab {
+			res = evid.F("copy-differs:object:"+ka.name, "%s: the %s of a variant does not equal it", desc, c.ViaB)
+			return
+		}
+		if c.A != c.B && !copyOfA && ab {
+			// payloads of different Go types (or different content) are never equal
+			res = evid.F("different-objects-equal", "%s: reported equal", desc)
+			return
+		}
+	}); g != nil {
+		return g
+	}
+	return res
+}
+
+func init() { regReplay("C20.obj", checkC20Obj) }
+
+func TestC20_EnumObjectPayloads(t *testing.T) {
+	rec := evid.New("C20", "TestC20_EnumObjectPayloads", "C20.obj", "Object variants over host values of every comparability class (comparable struct / pointer / channel, slice, map, function, struct or array containing those directly or behind an interface field, NaN inside): Type is Object, AsObject returns the payload, Equals never fails, is symmetric, a variant equals itself, its clone and a variant it was assigned to (payloads containing functions or NaN excepted), payloads of different kinds are unequal; also as elements of array variants; non-trivial = a payload that is not a plain comparable value; distinct by case")
+	rec.Exhaustive = true
+	rec.DupFree = true
+	defer finish(t, rec)
+	kinds := c20ObjKinds()
+	vias := []string{"VariantFromObject", "NewVariant", "SetAsObject", "setOverArray"}
+	rec.Bounds = fmt.Sprintf("%d payload kinds x %d payload kinds x 4 constructors x (4 constructors + clone + assign) x {plain, in an array, nested two deep}", len(kinds), len(kinds))
+	for a := range kinds {
+		for b := range kinds {
+			for _, va := range vias {
+				for _, vb := range append([]string{"clone", "assign"}, vias...) {
+					if (vb == "clone" || vb == "assign") && b != 0 {
+						continue
+					}
+					for wrap := 0; wrap <= 2; wrap++ {
+						c := c20ObjCase{a, b, va, vb, wrap}
+						rec.Case(jsonStr(c), a > 1 || b > 1, func() interface{} { return c }, "payload:"+kinds[a].name)
+						if f := checkC20Obj(c); f != nil {
+							rec.Fail(f, c)
+						}
+					}
+				}
+			}
+		}
+	}
 }
